@@ -106,6 +106,11 @@ META = {
         "(column A x 40..56; column B at x0 in {32,36,40,44,48,52,60} with width {8,12,16,24}, level or 4 lower; optional third "
         "column), every content order of the columns, with and without a far-away separator glyph between columns, so that "
         "vertical boxes hold lines of different widths with nested, partially overlapping, equal-edge and disjoint x-extents; "
+        "plus the family deep-chain (both tiers): n in {50,450,600,1200} boxes at positions 20i+i^2 (strictly increasing gaps, so the "
+        "group tree is a chain of depth n-1) stacked along y, mirrored along x, and as two-glyph vertical columns with "
+        "detect_vertical, each analysed directly with boxes_flow {0.5,-1,1,None} under the full oracle (evaluated without "
+        "recursion) and fed through a generated one-page PDF to extract_text_to_fp for text, xml and html (xml: n textbox "
+        "elements 0..n-1 and a layout tree holding each id once), recursion limit left at the default; "
         "non-trivial = the result tree contains a container with >= 2 members (a line "
         "with 2 glyphs, a box with 2 lines or a group). states = glyph sequences (nodes of the sequence tree), "
         "transitions = analyses run, traces = analyses whose result tree passed through the complete invariant walk."
@@ -221,11 +226,28 @@ def _union(members):
     return (x0, y0, x1, y1)
 
 
+def exc_signature(e, deep=False):
+    """C08/exception:<Type>@<function> (C08/deep-chain:... for the deep-chain family); for a RecursionError the function
+    is the pdfminer function that recurses (most frequent among the innermost pdfminer frames), else the innermost pdfminer frame"""
+    tb = traceback.extract_tb(e.__traceback__)
+    frames = [f for f in tb if "pdfminer" in f.filename.replace("\\", "/").split("/")]
+    fn = (frames or tb)[-1].name if tb else "?"
+    if isinstance(e, RecursionError) and frames:
+        cnt = {}
+        for f in frames[-40:]:
+            if not f.name.startswith("<"):
+                cnt[f.name] = cnt.get(f.name, 0) + 1
+        if cnt:
+            fn = sorted(cnt, key=lambda k: (-cnt[k], k))[0]
+    return f"C08/{'deep-chain' if deep else 'exception'}:{type(e).__name__}@{fn}"
+
+
 class Walk:
     """Evaluates the invariants on one analysed layout container; collects problems as (signature, expected, observed)."""
 
-    def __init__(self, p):
+    def __init__(self, p, deep=False):
         self.p = p
+        self.deep = deep      # deep-chain family: flat outcome abstraction, C08/deep-chain:* exception signatures
         self.problems = []
         self.leaves = []      # ids of non-virtual leaves met in the hierarchy
         self.shape = []       # outcome abstraction
@@ -316,35 +338,52 @@ class Walk:
         return text
 
     def group(self, g, boxes_seen, depth=0):
-        """walk page.groups; returns (text, shape)"""
-        members = list(g)
-        if len(members) < 2:
-            self.bad("C08/group-with-fewer-than-2-members", ">= 2", len(members))
-        if not members:
-            return "", ()
-        texts = []
-        shp = []
-        for m in members:
-            if isinstance(m, LTTextGroup):
-                t, s = self.group(m, boxes_seen, depth + 1)
-                texts.append(t)
-                shp.append(s)
-            elif isinstance(m, LTTextBox):
-                boxes_seen.append(id(m))
-                texts.append(m.get_text())
-                shp.append("b")
-            else:
-                self.bad("C08/ill-typed-member:group", "LTTextBox or LTTextGroup", type(m).__name__)
-        comps = [m for m in members if isinstance(m, (LTTextBox, LTTextGroup))]
-        if comps:
-            u = _union(comps)
-            if tuple(g.bbox) != u or (g.x0, g.y0, g.x1, g.y1) != u or g.width != u[2] - u[0] or g.height != u[3] - u[1]:
-                self.bad("C08/bbox-not-union:group", u, tuple(g.bbox))
-        text = "".join(texts)
-        got = g.get_text()
-        if got != text:
-            self.bad("C08/text-not-concatenation:group", text, got)
-        return text, tuple(shp)
+        """walk one tree of page.groups WITHOUT recursion (group trees can be as deep as the page has boxes);
+        returns (text, shape).  shape = nested tuples for ordinary cases, the tree depth for the deep-chain family."""
+        order = []
+        todo = [(g, 0)]
+        maxdepth = 0
+        while todo:
+            node, d = todo.pop()
+            order.append(node)
+            maxdepth = max(maxdepth, d)
+            for m in node:
+                if isinstance(m, LTTextGroup):
+                    todo.append((m, d + 1))
+        done = {}
+        for node in reversed(order):  # children before parents
+            members = list(node)
+            if len(members) < 2:
+                self.bad("C08/group-with-fewer-than-2-members", ">= 2", len(members))
+            texts = []
+            shp = []
+            for m in members:
+                if isinstance(m, LTTextGroup):
+                    t, sh = done.pop(id(m))
+                    texts.append(t)
+                    shp.append(sh)
+                elif isinstance(m, LTTextBox):
+                    boxes_seen.append(id(m))
+                    texts.append(m.get_text())
+                    shp.append("b")
+                else:
+                    self.bad("C08/ill-typed-member:group", "LTTextBox or LTTextGroup", type(m).__name__)
+            comps = [m for m in members if isinstance(m, (LTTextBox, LTTextGroup))]
+            if comps:
+                u = _union(comps)
+                if tuple(node.bbox) != u or (node.x0, node.y0, node.x1, node.y1) != u or node.width != u[2] - u[0] or node.height != u[3] - u[1]:
+                    self.bad("C08/bbox-not-union:group", u, tuple(node.bbox))
+            text = "".join(texts)
+            try:
+                got = node.get_text()
+            except Exception as e:  # noqa  (RecursionError on deep trees)
+                self.bad(exc_signature(e, self.deep), "get_text() returns", f"{type(e).__name__}: {str(e)[:80]}")
+                got = text
+            if got != text:
+                self.bad("C08/text-not-concatenation:group", text, got)
+            done[id(node)] = (text, None if self.deep else tuple(shp))
+        text, shp = done[id(g)]
+        return text, (maxdepth + 1 if self.deep else shp)
 
     def container(self, cont, where, analysed):
         """cont = LTPage or LTFigure after analysis. Returns list of nested figures to descend into."""
@@ -526,10 +565,143 @@ def vcols_sequences(ix):
                         yield specs
 
 
+# ---- family "deep-chain": n boxes with strictly increasing gaps -> group_textboxes always merges (group so far, next
+# box), the LTTextGroup tree is a chain of depth n-1.  Recursion limit stays at the interpreter default.
+DC_N = [50, 450, 600, 1200]
+DC_ARR = ["stack", "row", "vrow"]
+DC_FLOWS = [0.5, -1.0, 1.0, None]
+DC_OUT = ["text", "xml", "html"]
+
+
+def chain_glyphs(arr, n):
+    """-> (page bbox, glyph specs, detect_vertical)"""
+    pos = [20 * i + i * i for i in range(n)]
+    far = pos[-1] + 20
+    if arr == "stack":      # one-glyph boxes [10,15] wide, stacked upwards
+        return (0, 0, 100, far), [("a", 10, y, 5, 5, "h") for y in pos], False
+    if arr == "row":        # the mirrored arrangement along x
+        return (0, 0, far, 100), [("a", x, 10, 5, 5, "h") for x in pos], False
+    # vertical writing: two stacked glyphs per column, columns along x, detect_vertical=True
+    specs = []
+    for x in pos:
+        specs += [("a", x, 15, 5, 5, "h"), ("b", x, 10, 5, 5, "h")]
+    return (0, 0, far, 100), specs, True
+
+
+def chain_pdf(arr, n):
+    """the same glyph origins in a real one-page PDF (Helvetica 5pt, one Tm + Tj per glyph)"""
+    from mc.pdfgen import page_doc, type1_font
+
+    bbox, specs, dv = chain_glyphs(arr, n)
+    ops = [b"BT /F1 5 Tf"]
+    for t, x, y, w, h, _ in specs:
+        ops.append(b"1 0 0 1 %d %d Tm (%s) Tj" % (x, y, t.encode()))
+    ops.append(b"ET")
+    return page_doc(b"\n".join(ops), fonts={"F1": type1_font("Helvetica")}, mediabox=bbox), dv
+
+
+def analyse_chain_direct(case):
+    """-> (problems, outcome)"""
+    global _HEAP
+    if _HEAP is None:
+        _HEAP = install_counting_heapq()
+    specs = [tuple(g) for g in case["glyphs"]]
+    bf, dv = case["boxes_flow"], case["detect_vertical"]
+    p = (bf, dv, False) + MARGIN_DEFAULT
+    page, chars = make_page(tuple(case["page"]), specs)
+    before = [_snap(c) for c in chars]
+    n = len(specs)
+    _HEAP.pops = 0
+    _HEAP.budget = 4 * n * n + 16
+    install_stable_id().reset()
+    try:
+        page.analyze(_lap(p))
+    except HeapBudgetExceeded as e:
+        return [("C08/nontermination:box-merging-loop", "terminates", str(e))], ("nonterm",)
+    except Exception as e:  # noqa
+        return [(exc_signature(e, True), "analysis returns", f"{type(e).__name__}: {str(e)[:100]}")], ("exc", type(e).__name__)
+    w = Walk(p, deep=True)
+    try:
+        w.container(page, "page", True)
+    except Exception as e:  # noqa  -- the oracle itself is iterative; anything raised here comes from a library call
+        w.bad(exc_signature(e, True), "hierarchy can be read", f"{type(e).__name__}: {str(e)[:100]}")
+    cnt = {}
+    for i in w.leaves:
+        cnt[i] = cnt.get(i, 0) + 1
+    lost = sum(1 for c in chars if cnt.get(id(c), 0) == 0)
+    dup = sum(1 for c in chars if cnt.get(id(c), 0) > 1)
+    if lost:
+        w.bad("C08/lost-item:glyph", "occurs once", f"{lost} glyphs absent from the hierarchy")
+    if dup:
+        w.bad("C08/duplicated-item:glyph", "occurs once", f"{dup} glyphs occur more than once")
+    if len(cnt) > len(chars) - lost:
+        w.bad("C08/foreign-item", "only original items", "unknown leaf")
+    if [_snap(c) for c in chars] != before:
+        w.bad("C08/altered-item:glyph", "unchanged", "a glyph changed")
+    nboxes = sum(1 for o in page if isinstance(o, LTTextBox))
+    depth = [x[1] for x in w.shape if x and x[0] == "G"]
+    return w.problems, ("direct", nboxes, tuple(depth[0]) if depth else None)
+
+
+def analyse_chain_pdf(case):
+    import io
+    import re
+
+    from pdfminer.high_level import extract_text_to_fp
+
+    out = io.BytesIO()
+    n = case["n_boxes"]
+    try:
+        extract_text_to_fp(
+            io.BytesIO(case["pdf"]), out, output_type=case["output"], codec="utf-8",
+            laparams=LAParams(boxes_flow=0.5, detect_vertical=case["detect_vertical"]),
+        )
+    except Exception as e:  # noqa
+        return [(exc_signature(e, True), f"extract_text_to_fp(output_type={case['output']!r}) returns", f"{type(e).__name__}: {str(e)[:100]}")], ("exc", type(e).__name__)
+    data = out.getvalue().decode("utf-8")
+    problems = []
+    if case["output"] == "text":
+        got = sum(1 for ch in data if not ch.isspace())
+        if got != case["n_glyphs"]:
+            problems.append(("C08/deep-chain:text-output-glyph-count", case["n_glyphs"], got))
+    elif case["output"] == "xml":
+        body = [int(i) for i in re.findall(r'<textbox id="(-?\d+)" bbox="[^"]*"(?: wmode="vertical")?>', data)]
+        lay = data.partition("<layout>")[2].partition("</layout>")[0]
+        ids = sorted(int(i) for i in re.findall(r'<textbox id="(-?\d+)" bbox="[^"]*" />', lay))
+        if body != list(range(n)):
+            problems.append(("C08/deep-chain:xml-textboxes-not-0..n-1", f"{n} textbox elements numbered 0..{n-1} in order", f"{len(body)} elements, first ids {body[:5]}"))
+        if ids != list(range(n)):
+            problems.append(("C08/deep-chain:xml-layout-does-not-hold-each-textbox-once", f"ids 0..{n-1} once each", f"{len(ids)} entries, first {ids[:5]}"))
+        if lay.count("<textgroup ") != lay.count("</textgroup>") or lay.count("<textgroup ") != n - 1:
+            problems.append(("C08/deep-chain:xml-layout-group-count", n - 1, (lay.count("<textgroup "), lay.count("</textgroup>"))))
+    else:
+        if "</html>" not in data or data.count("<span") < 1:
+            problems.append(("C08/deep-chain:html-output-incomplete", "complete document", data[-60:]))
+    return problems, (case["output"], len(data) // 1000)
+
+
+def chain_case(shard):
+    _, route, arr, n, x = shard
+    bbox, specs, dv = chain_glyphs(arr, n)
+    nb = n
+    if route == "direct":
+        return {"family": "deep-chain", "route": "direct", "arrangement": arr, "n_boxes": nb, "page": bbox, "glyphs": specs,
+                "boxes_flow": x, "detect_vertical": dv}
+    pdf, dv = chain_pdf(arr, n)
+    return {"family": "deep-chain", "route": "pdf", "arrangement": arr, "n_boxes": nb, "n_glyphs": len(specs), "pdf": pdf,
+            "output": x, "detect_vertical": dv}
+
+
+def judge_chain(case):
+    return analyse_chain_direct(case) if case["route"] == "direct" else analyse_chain_pdf(case)
+
+
 def shards(tier):
     out = [("short",)]
     out += [("pre", i, j) for i in range(len(POOL)) for j in range(len(POOL))]
     out += [("vcols", i) for i in range(len(VC_X0))]
+    out += [("deep-chain", "direct", arr, n, bf) for arr in DC_ARR for n in DC_N for bf in DC_FLOWS]
+    out += [("deep-chain", "pdf", arr, n, o) for arr in DC_ARR for n in DC_N for o in DC_OUT]
     return out
 
 
@@ -549,6 +721,23 @@ def run_shard(shard, tier, st):
     maxlen = BOUNDS[tier]["max_len"]
     full = param_grid(tier)
     quick = param_grid("quick")
+    if shard[0] == "deep-chain":
+        case = chain_case(shard)
+        problems, outcome = judge_chain(case)
+        st.states += 1
+        st.transitions += 1
+        if not (outcome and outcome[0] in ("exc", "nonterm")):
+            st.traces += 1
+        st.case(None, nontrivial=True, outcome=shard[1:] + tuple(outcome))
+        st.add("deep_chain_cases", 1)
+        seen = set()
+        for sig, exp, obs in problems:
+            if sig not in seen:
+                seen.add(sig)
+                st.violation(sig, case, exp, obs, sig.split("/", 1)[1])
+        if shard[2:] == ("stack", 50, 0.5):
+            st.sample({k: (v if k not in ("glyphs", "pdf") else f"<{len(v)} items>") for k, v in case.items()})
+        return
     if shard[0] == "vcols":
         specs = None
         for specs in vcols_sequences(shard[1]):
@@ -579,6 +768,15 @@ def run_shard(shard, tier, st):
 
 
 def replay(case):
+    if case.get("family") == "deep-chain":
+        problems, _ = judge_chain(case)
+        out = []
+        seen = set()
+        for sig, exp, obs in problems:
+            if sig not in seen:
+                seen.add(sig)
+                out.append({"signature": sig, "expected": repr(exp), "observed": repr(obs)})
+        return out
     specs = [tuple(s) for s in case["glyphs"]]
     p = tuple(case["params"])
     problems, _, _, _ = analyse(specs, p, int(case.get("variant", 0)))
